@@ -3,6 +3,7 @@ wiring of the returned policy, look-ahead action value, QMDP action value."""
 from __future__ import annotations
 
 import ast
+import copy
 from fractions import Fraction
 from typing import Dict, List, Optional, Set
 
@@ -118,8 +119,10 @@ def rule_backup(ctx: Ctx, typer: Typer):
         if dl and bv and new_bv and bb:
             # delta = np.abs(old_v - new_v).max(), old_v / new_v = values of the belief set under the current / the new alpha vectors
             env0 = {"delta": dv[0], "bv": bv, "new_bv": new_bv, "bb": bb}
-            for diff in ("old_v - new_v", "new_v - old_v"):
-                if S.solve([f"delta = np.abs({diff}).max()", "old_v = np.einsum(E_s1, bv, bb)", "new_v = np.einsum(E_s2, new_bv, bb)"], env0, within=lp):
+            # (the two values may be named by temporaries or written in place: a name stands for its only definition)
+            old_v, new_v = "np.einsum(E_s1, bv, bb)", "np.einsum(E_s2, new_bv, bb)"
+            for diff in (f"{old_v} - {new_v}", f"{new_v} - {old_v}"):
+                if S.has(f"delta = np.abs({diff}).max()", env0, within=lp):
                     ok = True
         ctx.check(ok if ok else None, "STOP-1", f, dl[0] if dl else brk[0], "change = max |V_old(b) - V_new(b)| over the belief set", "", "idiom not recognised")
         upd = [n_ for n_ in lp.body if bv and new_bv and S.m("bv = new_bv", n_, {"bv": bv, "new_bv": new_bv}) is not None]
@@ -179,7 +182,8 @@ def backup_roles(f: FunctionInfo, S: Snips, cfg, lp: ast.For) -> Dict[str, objec
                 R["bsa"], R["idx"] = e["bsa"], e["idx"]
                 R["cnt_ok"] = S.has("cnt = np.arange(len(bb))", {"cnt": e["cnt"], "bb": R["bb"]}) and not _assigns_in(lp, e["cnt"])
                 # the selecting index is the argmax of the values of those same per-action alpha vectors at the beliefs
-                R["idx_ok"] = S.solve(["idx = ba.argmax(axis=ANY)", "ba = np.einsum(ANY, bsa, bb)"], {"idx": e["idx"], "bsa": e["bsa"], "bb": R["bb"]}, within=lp) is not None
+                # (the value array may be a named temporary or written in place)
+                R["idx_ok"] = S.has("idx = np.einsum(ANY, bsa, bb).argmax(axis=ANY)", {"idx": e["idx"], "bsa": e["bsa"], "bb": R["bb"]}, within=lp)
             else:
                 cand = _assigns_in(lp, R["new_bv"])
                 if cand:
@@ -277,6 +281,64 @@ def rule_wiring(ctx: Ctx):
     ctx.check(ok, "WIRE-1", f, r[0] if r else f.node, "alpha_vectors are the converged per-belief alpha vectors", "", "alpha_vectors key does not hold the backed-up alpha vectors")
 
 
+class _Subst(ast.NodeTransformer):
+    def __init__(self, defs: Dict[str, ast.AST], depth: int = 0):
+        self.defs, self.depth = defs, depth
+
+    def visit_Name(self, node):
+        if isinstance(node.ctx, ast.Load) and node.id in self.defs and self.depth < 20:
+            return _Subst(self.defs, self.depth + 1).visit(copy.deepcopy(self.defs[node.id]))
+        return node
+
+
+def written_out(node: ast.AST, defs: Dict[str, ast.AST]) -> ast.AST:
+    """`node` with every temporary of `defs` replaced (recursively) by its defining expression: the expression the code
+    computes, whether or not its sub-terms are named."""
+    return _Subst(defs).visit(copy.deepcopy(node))
+
+
+def block_defs(S: Snips, block: List[ast.stmt], upto: ast.stmt) -> Dict[str, ast.AST]:
+    """temporaries available at `upto`: single-assignment locals of the function that are named by a plain statement of the
+    same block before `upto` (so the definition is evaluated in the same pass, under the same loop variables)."""
+    if not any(st is upto for st in block):
+        return {}
+    out: Dict[str, ast.AST] = {}
+    for st in block:
+        if st is upto:
+            break
+        if isinstance(st, ast.Assign) and len(st.targets) == 1 and isinstance(st.targets[0], ast.Name) and S.defs.get(st.targets[0].id) is st.value:
+            out[st.targets[0].id] = st.value
+    return out
+
+
+def _def_stmt(block: List[ast.stmt], defs: Dict[str, ast.AST], word: str, default: ast.AST) -> ast.AST:
+    for st in block:
+        if isinstance(st, ast.Assign) and any(st.value is d for d in defs.values()) and word in ast.unparse(st.value):
+            return st
+    return default
+
+
+def call_atoms(p, word: str):
+    """(atom text, Call node) of the atoms of a normal form that are calls of something whose name contains `word`."""
+    out = []
+    for k in sorted(alg.atoms(p)):
+        try:
+            e = ast.parse(k, mode="eval").body
+        except SyntaxError:
+            continue
+        if isinstance(e, ast.Call) and word in ast.unparse(e.func):
+            out.append((k, e))
+    return out
+
+
+def single_monomial(p) -> Optional[Dict[str, int]]:
+    """atom -> exponent when the normal form is one monomial with coefficient 1."""
+    if len(p) != 1:
+        return None
+    (m, c), = p.items()
+    return dict(m) if c == 1 else None
+
+
 def rule_lookahead(ctx: Ctx, typer: Typer):
     P, X = ctx.P, ctx.X
     C = P.cls("AlphaVectorPolicy")
@@ -284,11 +346,16 @@ def rule_lookahead(ctx: Ctx, typer: Typer):
     t = X.returns(v)
     ok = t.op == "call" and ext_name(t.args[0]) == "numpy.max" and any(ext_name(x.args[0]) == "numpy.einsum" for x in walk(t) if x.op == "call")
     ctx.check(ok, "LA-1", v, v.node, "alpha-vector value = max over alpha vectors of <alpha, b>", "", "value is not the upper envelope of the alpha vectors")
-    es = [c for c in ast.walk(v.node) if isinstance(c, ast.Call) and ast.unparse(c.func) == "np.einsum"]
-    ok = bool(es) and es[0].args[0].value.replace(" ", "") in ("ds,s->d",) and ast.unparse(es[0].args[1]) == "self.alpha_vectors"
-    ctx.check(ok, "LA-1", v, es[0] if es else v.node, "inner product contracts the state axis of alpha vectors and belief", "", "contraction is not over the state axis")
+    SV = Snips(v)
+    es = [(n, e) for n, e in SV.find("np.einsum(E_spec, self.alpha_vectors, ANY)") if isinstance(n, ast.Call)]
+    spec = es[0][1]["spec"] if es else None
+    if isinstance(spec, ast.Name) and spec.id in SV.defs:
+        spec = SV.defs[spec.id]
+    ok = isinstance(spec, ast.Constant) and isinstance(spec.value, str) and spec.value.replace(" ", "") in ("ds,s->d",)
+    ctx.check(ok, "LA-1", v, es[0][0] if es else v.node, "inner product contracts the state axis of alpha vectors and belief", "", "contraction is not over the state axis")
     av = C.methods["action_value"]
     b, a = av.positional_params[1:3]
+    SA = Snips(av)
     accs = [n for n in fn_body_nodes(av) if isinstance(n, ast.AugAssign) and isinstance(n.op, ast.Add)]
     if len(accs) != 2:
         ctx.unknown("LA-1", av, av.node, "look-ahead accumulation", f"{len(accs)} accumulations")
@@ -297,11 +364,14 @@ def rule_lookahead(ctx: Ctx, typer: Typer):
     lps = enclosing_loops(av, rw)
     i0, i1 = items_loop_info(lps[0]), items_loop_info(lps[1]) if len(lps) > 1 else None
     if i0 and i1:
-        rdef = [n for n in ast.walk(lps[1]) if isinstance(n, ast.Assign) and isinstance(n.value, ast.Call) and "reward" in ast.unparse(n.value.func)]
-        rv = rdef[0].targets[0].id if rdef else "?"
-        ok = bool(rdef) and [ast.unparse(x) for x in rdef[0].value.args] == [i0[3], a, i1[3]] and i1[1] == "next_state_dist" and i1[2] == [i0[3], a]
-        ctx.check(ok, "LA-1", av, rdef[0] if rdef else lps[1], "one-step reward = reward(s, a, ns) over next_state_dist(s, a)", "", "one-step reward is not reward(s, a, ns) of the enumerated transition")
-        p = alg.normalise(rw.value)
+        # the summand as the code computes it: temporaries named in the inner loop body before the accumulation are written out, so the
+        # rule reads the same product whether the reward is named first or used in place
+        tmp = block_defs(SA, lps[1].body, rw)
+        p = alg.normalise(written_out(rw.value, tmp))
+        rc = call_atoms(p, "reward")
+        ok = len(rc) == 1 and not rc[0][1].keywords and [ast.unparse(x) for x in rc[0][1].args] == [i0[3], a, i1[3]] and i1[1] == "next_state_dist" and i1[2] == [i0[3], a]
+        ctx.check(ok, "LA-1", av, _def_stmt(lps[1].body, tmp, "reward", rw), "one-step reward = reward(s, a, ns) over next_state_dist(s, a)", "", "one-step reward is not reward(s, a, ns) of the enumerated transition")
+        rv = rc[0][0] if len(rc) == 1 else "?"
         want = {tuple(sorted(((rv, 1), (i0[4], 1), (i1[4], 1)))): Fraction(1)}
         ctx.check(p == want, "LA-1", av, rw, "expected reward summand = r * b(s) * T(ns|s,a)", alg.show(p), f"summand is `{alg.show(p)}`")
     lp2 = enclosing_loops(av, fu)
@@ -309,18 +379,20 @@ def rule_lookahead(ctx: Ctx, typer: Typer):
     if j:
         ok = j[1] == "predictive_observation_dist" and j[2][1:] == [a]
         ctx.check(ok, "LA-1", av, lp2[0], f"future term sums over predictive_observation_dist(belief, {a})", "", f"future term enumerates {j[1]}({', '.join(j[2])})")
-        est = [n for n in ast.walk(lp2[0]) if isinstance(n, ast.Assign) and "state_estimator" in ast.unparse(n.value)]
-        ok = bool(est) and [ast.unparse(x) for x in est[0].value.args] == [j[2][0], a, j[3]]
-        ctx.check(ok, "LA-1", av, est[0] if est else lp2[0], "successor belief = state_estimator(same belief, same action, enumerated observation)", "",
+        tmp = block_defs(SA, lp2[-1].body, fu)
+        full = written_out(fu.value, tmp)
+        p = alg.normalise(full)
+        ec = [c for c in ast.walk(full) if isinstance(c, ast.Call) and "state_estimator" in ast.unparse(c.func)]
+        ok = bool(ec) and all(not c.keywords and [ast.unparse(x) for x in c.args] == [j[2][0], a, j[3]] for c in ec)
+        ctx.check(ok, "LA-1", av, _def_stmt(lp2[-1].body, tmp, "state_estimator", fu), "successor belief = state_estimator(same belief, same action, enumerated observation)", "",
                   "the successor belief is not the posterior of the same belief and action under the enumerated observation")
-        nv = [n for n in ast.walk(lp2[0]) if isinstance(n, ast.Assign) and "self.value(" in ast.unparse(n.value)]
-        if nv and est:
-            p = alg.normalise(nv[0].value)
-            want = {tuple(sorted((("self.pomdp.discount_rate", 1), (f"self.value({est[0].targets[0].id})", 1)))): Fraction(1)}
-            ctx.check(p == want, "LA-1", av, nv[0], "future value = gamma * V(successor belief)", alg.show(p), f"future value is `{alg.show(p)}`")
-            p2 = alg.normalise(fu.value)
-            want2 = {tuple(sorted(((nv[0].targets[0].id, 1), (j[4], 1)))): Fraction(1)}
-            ctx.check(p2 == want2, "LA-1", av, fu, "future summand = P(o) * discounted successor value", alg.show(p2), f"summand is `{alg.show(p2)}`")
+        mono = single_monomial(p)
+        vtext = f"self.value({alg.text(ec[0])})" if ec else "self.value(?)"
+        rest = {k: e for k, e in mono.items() if k != j[4]} if mono is not None else None
+        ctx.check(rest == {"self.pomdp.discount_rate": 1, vtext: 1}, "LA-1", av, _def_stmt(lp2[-1].body, tmp, "self.value(", fu), "future value = gamma * V(successor belief)", alg.show(p),
+                  f"future summand is `{alg.show(p)}`: apart from the observation probability it must be discount_rate * {vtext}")
+        ok = mono is not None and mono.get(j[4]) == 1 and len(mono) > 1
+        ctx.check(ok, "LA-1", av, fu, "future summand = P(o) * discounted successor value", alg.show(p), f"summand is `{alg.show(p)}`")
 
 
 def rule_qmdp(ctx: Ctx):
@@ -336,7 +408,7 @@ def rule_qmdp(ctx: Ctx):
         ok = ast.unparse(lps[0].iter).replace(" ", "") == f"zip({names[0]},{names[1]})"
         ctx.check(ok, "QMDP-1", av, lps[0], "iterates the belief's own (state, probability) pairs", "", f"iterates `{ast.unparse(lps[0].iter)}`")
         sv, pv = [e.id for e in lps[0].target.elts]
-        p = alg.normalise(accs[0].value)
+        p = alg.normalise(written_out(accs[0].value, block_defs(Snips(av), lps[0].body, accs[0])))
         want = {tuple(sorted(((f"self.sa_values[{sv}][{a}]", 1), (pv, 1)))): Fraction(1)}
         ctx.check(p == want, "QMDP-1", av, accs[0], "QMDP action value = sum_s b(s) * Q_MDP[s][a]", alg.show(p), f"summand is `{alg.show(p)}`")
     else:
@@ -368,6 +440,6 @@ def run(ctx: Ctx):
     mods = ("msdm.algorithms.pointbasedvalueiteration", "msdm.algorithms.qmdp", "msdm.core.pomdp.alphavectorpolicy")
     arg_permutation_rule(ctx, G, [x for x in P.all_functions() if x.module.name in mods], "ARG")
     for r, k in (("TEN-1", 10), ("TEN-3", 2), ("BEL-1", 4), ("BEL-2", 2), ("SEL-1", 1), ("STOP-1", 2), ("CFG-2", 1), ("WIRE-1", 5),
-                 ("LA-1", 7), ("QMDP-1", 5), ("ARG", 3)):
+                 ("LA-1", 8), ("QMDP-1", 5), ("ARG", 3)):
         ctx.require(r, k)
     ctx.assume("Pineau et al. 2003: point-based backups from alpha = 0 stay lower bounds; QMDP is an upper bound (Littman et al. 1995)")
